@@ -836,6 +836,7 @@ class Exec:
 
     def run_harness(self, fid, ro_globals=True):
         self.harness = fid
+        self.finished_all = []   # also available when exploration is cut short
         st = self.base.fork()
         if ro_globals:
             for oid, name in self.global_objs.items():
@@ -860,6 +861,8 @@ class Exec:
                     if r is not None:
                         if r == 'done':
                             finished.append(st)
+                            if getattr(self, 'finished_all', None) is not None:
+                                self.finished_all.append(st)
                             self.res.paths += 1
                             self.res.ended['done'] = self.res.ended.get('done', 0) + 1
                             break
